@@ -205,6 +205,9 @@ func (s *Set32) ChunkCard(k uint16) int {
 	if c == nil {
 		return 0
 	}
+	if c == fullChunk {
+		return 65536
+	}
 	n := 0
 	for _, w := range c {
 		n += bits.OnesCount64(w)
@@ -255,47 +258,140 @@ func (s *Set32) Equal(o *Set32) bool {
 	return true
 }
 
-func binop(a, b *Set32, f func(x, y uint64) uint64) *Set32 {
+const (
+	opAnd = iota
+	opOr
+	opXor
+	opAndNot
+)
+
+func copyChunk(c *Chunk) *Chunk {
+	if c == fullChunk {
+		return c
+	}
+	n := new(Chunk)
+	*n = *c
+	return n
+}
+
+func isAllOnes(c *Chunk) bool {
+	for _, w := range c {
+		if w != ^uint64(0) {
+			return false
+		}
+	}
+	return true
+}
+
+// binop combines two sets chunk by chunk. Full chunks are a shared immutable
+// sentinel, so universe-scale sets (65536 full chunks) cost O(keys), not O(bits).
+func binop(a, b *Set32, op int) *Set32 {
 	n := NewSet32()
-	var zero Chunk
-	seen := map[uint16]bool{}
-	do := func(k uint16) {
-		if seen[k] {
+	put := func(k uint16, c *Chunk) {
+		if c == nil {
 			return
 		}
-		seen[k] = true
-		x, y := a.m[k], b.m[k]
-		if x == nil {
-			x = &zero
-		}
-		if y == nil {
-			y = &zero
-		}
-		c := new(Chunk)
-		nz := false
-		for i := range c {
-			c[i] = f(x[i], y[i])
-			if c[i] != 0 {
-				nz = true
+		if c != fullChunk {
+			if chunkEmpty(c) {
+				return
+			}
+			if isAllOnes(c) {
+				c = fullChunk
 			}
 		}
-		if nz {
-			n.m[k] = c
+		n.m[k] = c
+	}
+	calc := func(x, y *Chunk, f func(p, q uint64) uint64) *Chunk {
+		c := new(Chunk)
+		for i := range c {
+			c[i] = f(x[i], y[i])
+		}
+		return c
+	}
+	var zero Chunk
+	do := func(k uint16, x, y *Chunk) {
+		switch op {
+		case opAnd:
+			switch {
+			case x == nil || y == nil:
+			case x == fullChunk:
+				put(k, copyChunk(y))
+			case y == fullChunk:
+				put(k, copyChunk(x))
+			default:
+				put(k, calc(x, y, func(p, q uint64) uint64 { return p & q }))
+			}
+		case opOr:
+			switch {
+			case x == fullChunk || y == fullChunk:
+				put(k, fullChunk)
+			case x == nil:
+				put(k, copyChunk(y))
+			case y == nil:
+				put(k, copyChunk(x))
+			default:
+				put(k, calc(x, y, func(p, q uint64) uint64 { return p | q }))
+			}
+		case opXor:
+			switch {
+			case x == fullChunk && y == fullChunk:
+			case x == nil:
+				put(k, copyChunk(y))
+			case y == nil:
+				put(k, copyChunk(x))
+			default:
+				put(k, calc(x, y, func(p, q uint64) uint64 { return p ^ q }))
+			}
+		default: // andnot
+			switch {
+			case x == nil || y == fullChunk:
+			case y == nil:
+				put(k, copyChunk(x))
+			default:
+				put(k, calc(x, y, func(p, q uint64) uint64 { return p &^ q }))
+			}
 		}
 	}
-	for k := range a.m {
-		do(k)
+	_ = zero
+	for k, x := range a.m {
+		do(k, x, b.m[k])
 	}
-	for k := range b.m {
-		do(k)
+	for k, y := range b.m {
+		if _, seen := a.m[k]; !seen {
+			do(k, nil, y)
+		}
 	}
 	return n
 }
 
-func And32(a, b *Set32) *Set32    { return binop(a, b, func(x, y uint64) uint64 { return x & y }) }
-func Or32(a, b *Set32) *Set32     { return binop(a, b, func(x, y uint64) uint64 { return x | y }) }
-func Xor32(a, b *Set32) *Set32    { return binop(a, b, func(x, y uint64) uint64 { return x ^ y }) }
-func AndNot32(a, b *Set32) *Set32 { return binop(a, b, func(x, y uint64) uint64 { return x &^ y }) }
+func And32(a, b *Set32) *Set32    { return binop(a, b, opAnd) }
+func Or32(a, b *Set32) *Set32     { return binop(a, b, opOr) }
+func Xor32(a, b *Set32) *Set32    { return binop(a, b, opXor) }
+func AndNot32(a, b *Set32) *Set32 { return binop(a, b, opAndNot) }
+
+// IsFullChunk reports whether chunk k holds all 65536 values (as the shared sentinel or not).
+func (s *Set32) IsFullChunk(k uint16) bool {
+	c := s.m[k]
+	return c != nil && (c == fullChunk || isAllOnes(c))
+}
+
+// EachInChunk calls f on every element of chunk k in increasing order until f returns false.
+func (s *Set32) EachInChunk(k uint16, f func(x uint32) bool) {
+	c := s.m[k]
+	if c == nil {
+		return
+	}
+	base := uint32(k) << 16
+	for wi, w := range c {
+		for w != 0 {
+			t := bits.TrailingZeros64(w)
+			if !f(base | uint32(wi<<6+t)) {
+				return
+			}
+			w &= w - 1
+		}
+	}
+}
 
 // FromSlice builds a set from values.
 func FromSlice32(v []uint32) *Set32 {
@@ -335,6 +431,10 @@ func (s *Set32) CountRange(a, b uint64) uint64 {
 	rangePieces(a, b, func(k uint16, lo, hi uint32) {
 		c := s.m[k]
 		if c == nil {
+			return
+		}
+		if lo == 0 && hi == 0xFFFF {
+			n += uint64(s.ChunkCard(k))
 			return
 		}
 		for i := lo; i <= hi; i++ {
